@@ -64,6 +64,8 @@ def correspond(ctx):
 def search(ctx):
     from ._adapters2 import SPEC_ONLY
 
+    sdf_records_many(ctx)
+
     for k, ad in SPEC_ONLY.items():
         K.c03_spec_only(ctx, ad, ctx.n(800, 3000) * (3 if ctx.escalated else 1))
     # the direct evaluation (spec-load:<fmt>) is part of c03_flow; with a broken obligation run a second, larger batch
@@ -72,7 +74,54 @@ def search(ctx):
             K.c03_flow(ctx, ADAPTERS[k], ctx.n(120, 800))
 
 
+def sdf_records_many(ctx):
+    """SD files of several records whose three header lines are filled as other programs fill them (blank molecule name,
+    program/timestamp line, comment line): every record read by load_many carries exactly what the same record carries
+    when it is a file of its own (header line 1 is the title, whatever lines 2 and 3 say)."""
+    from . import _formats as F
+    from . import c13
+
+    rng = ctx.rng
+    for it in range(ctx.n(40, 300)):
+        nf = rng.choice([2, 3, 4])
+        lines, _meta, _frames = c13.make_file(rng, "sdf", nf)
+        starts = c13.frame_spans("sdf", lines)
+        bounds = starts[1:] + [len(lines)]
+        got, final = c13.impl_load_many("sdf", lines)
+        bad = None
+        if final != "done" or len(got) != nf:
+            bad = ("sdf:spec:many-records", f"{nf} records, load_many gives {len(got)} / {final}")
+        else:
+            for i, (s0, e0) in enumerate(zip(starts, bounds)):
+                one = F.real_load("".join(lines[s0:e0]).encode(), "sdf")
+                if not one.ok:
+                    continue
+                d = F.snap_diff(F.snap_iodata(one.value), F.snap_iodata(got[i][4]))
+                if d:
+                    bad = (f"sdf:spec:many-records:{d[0]}", f"record {i}: {d[0]} read by load_many differs from the record loaded alone "
+                           f"({getattr(got[i][4], d[0], None)!r} vs {getattr(one.value, d[0], None)!r})"[:300])
+                    break
+        ctx.count("spec-py:sdf-many", "".join(lines)[:3000], "ok" if bad is None else "FAIL")
+        if bad:
+            ctx.fail(bad[0], bad[1], {"kind": "sdf-many", "lines": lines})
+
+
 def replay(ctx, obj):
+    if obj["input"].get("kind") == "sdf-many":
+        from . import _formats as F
+        from . import c13
+
+        lines = obj["input"]["lines"]
+        starts = c13.frame_spans("sdf", lines)
+        bounds = starts[1:] + [len(lines)]
+        got, final = c13.impl_load_many("sdf", lines)
+        if final != "done" or len(got) != len(starts):
+            return True
+        for i, (s0, e0) in enumerate(zip(starts, bounds)):
+            one = F.real_load("".join(lines[s0:e0]).encode(), "sdf")
+            if one.ok and F.snap_diff(F.snap_iodata(one.value), F.snap_iodata(got[i][4])):
+                return True
+        return False
     return K.replay_generic(ctx, obj)
 
 
